@@ -28,14 +28,15 @@ theorem C16_gen_defaults :
 /-- comparison operators: time-out is `last + timeout ≤ t` (model: `Node.expired`, `Node.localExpired`),
 the limit is `len ≥ max` (model: login needs `len < max`) -/
 theorem C16_gen_comparisons :
-    Gen.Session.localTimeoutCmp = "le" ∧ Gen.Session.remoteTimeoutCmp = "le" ∧ Gen.Session.limitCmp = "ge" ∧
-    Gen.Session.preTimestepSetsCurrent = true ∧ Gen.Session.validateIsMembership = true := by decide
+    -- the time-out comparisons, `validate_remote_session_uuid` and the limit comparison are no longer textual pins: the methods are
+    -- translated and proved equal to the model in Props/C16Tr.lean (`C16_gen_pre_timestep`, `C16_gen_session_validation`,
+    -- `C16_gen_login_guards`); what stays here is the assignment `self.current_timestep = timestep`
+    Gen.Session.preTimestepSetsCurrent = true := by decide
 
 /-- guard shapes the model's `authenticate`, `loginOk`, `changePassword`, `disableUser`, `logoutUser` rely on -/
 theorem C16_gen_guards :
-    Gen.Session.authGuarded = true ∧
-    Gen.Session.authTest = ["user", "not user.disabled", "user.password == password"] ∧
-    Gen.Session.authReturnsUserElseNone = true ∧
+    -- `authenticate_user`, `_login`, `disable_user` / `_is_last_admin` are no longer textual pins: they are translated statement by
+    -- statement and proved equal to the model's tests in Props/C16Tr.lean (`C16_gen_login_guards`, `C16_gen_disable_user`)
     Gen.Session.chpwGuarded = true ∧
     Gen.Session.chpwTest = ["user", "user.password == current_password"] ∧
     Gen.Session.chpwSetsPasswordAndLogsOut = true ∧
@@ -43,19 +44,14 @@ theorem C16_gen_guards :
     Gen.Session.logoutUserIteratesSnapshotOfUsersSessions = true ∧
     Gen.Session.logoutUserForced = true ∧
     Gen.Session.logoutGuardSkippedOnlyWhenForced = true ∧
-    Gen.Session.lastAdminTest = "username in self.admins and len(self.admins) == 1" ∧
     Gen.Session.adminsExpr = "{k: v for k, v in self.users.items() if v.is_admin and (not v.disabled)}" ∧
-    Gen.Session.disableGuarded = true ∧
-    Gen.Session.disableRefusesLastAdmin = true ∧
     Gen.Session.userDeletions = [] ∧
-    Gen.Session.loginGuarded = true ∧ Gen.Session.loginAuthenticates = true ∧ Gen.Session.loginChecksLimit = true ∧
     Gen.Session.timeoutToleratesMissingConnection = true := by decide
 
 /-- terminal: a command is executed only under `_check_client_connection`, which is "live session and known connection";
 `send_remote_command` answers from the response to *this* command only; closed ports drop frames -/
 theorem C16_gen_terminal :
     Gen.Session.executeOnlyUnderValidConnection = true ∧
-    Gen.Session.checkClientConnectionShape = true ∧
     Gen.Session.remoteCommandClearsLastResponse = true ∧
     Gen.Session.remoteCommandAnswersFailureWithoutResponse = true ∧
     Gen.Session.hostDropsFramesForClosedPorts = true := by decide
